@@ -613,6 +613,12 @@ func (p *Path) convert(v Value, from, to types.Type) Value {
 			f, _ := new(big.Float).SetInt(iv).Float64()
 			return fpConst(f)
 		}
+		if x, sx, ok := bvView(t); ok {
+			if sx {
+				return mkApp(SFP, 0, "(_ to_fp 11 53) RNE", x)
+			}
+			return mkApp(SFP, 0, "(_ to_fp_unsigned 11 53) RNE", x)
+		}
 		if t.kind == SInt {
 			return mkApp(SFP, 0, "(_ to_fp 11 53) RNE", mkApp(SInt, 0, "to_real", t))
 		}
@@ -734,6 +740,11 @@ func (p *Path) indexAddr(fr *Frame, x *ssa.IndexAddr) Value {
 	w, signed := intInfo(x.Index.Type())
 	switch b := base.(type) {
 	case SliceV:
+		if !idx.cst && b.len > 0 && b.off == 0 && b.blob == nil && b.lazy == nil {
+			if arr, ok := getPath(b.c.v, b.path).(ArrayV); ok && len(arr.e) == b.len && constTable(arr.e) {
+				return PtrV{c: b.c, path: b.path, sym: &symIndex{idx: idx, signed: signed}}
+			}
+		}
 		i, ok := p.concretizeIndex(idx, b.len, signed, w)
 		if !ok {
 			p.throwRuntime(fmt.Sprintf("index out of range [%s] with length %d", idx, b.len))
@@ -744,6 +755,10 @@ func (p *Path) indexAddr(fr *Frame, x *ssa.IndexAddr) Value {
 			p.throwRuntime("nil pointer dereference (index)")
 		}
 		arr := b.load().(ArrayV)
+		if !idx.cst && constTable(arr.e) {
+			// constant table read at a symbolic index: deferred to the load (ite chain, no forking)
+			return PtrV{c: b.c, path: b.path, sym: &symIndex{idx: idx, signed: signed}}
+		}
 		i, ok := p.concretizeIndex(idx, len(arr.e), signed, w)
 		if !ok {
 			p.throwRuntime("index out of range")
@@ -789,6 +804,47 @@ func (p *Path) iteSelect(elems []Value, idx *Term, signed bool) (Value, bool) {
 		if t, ok := e.(*Term); !ok || !t.cst {
 			return nil, false
 		}
+	}
+	if idx.kind == SBV {
+		// stay in the bit-vector domain (no bv2nat): index and table bytes as bit-vectors
+		n := mkBV(bigInt(int64(len(elems))), idx.w)
+		inRange := bvCmp("bvult", idx, n)
+		if signed {
+			inRange = tAnd(bvCmp("bvsge", idx, mkBV(bigInt(0), idx.w)), bvCmp("bvslt", idx, n))
+		}
+		if !p.decide(inRange) {
+			p.throwRuntime("index out of range")
+		}
+		ew := 0
+		for _, e := range elems {
+			t := e.(*Term)
+			if t.kind == SBV {
+				ew = t.w
+			}
+		}
+		conv := func(t *Term) *Term {
+			if t.kind == SBV || ew == 0 {
+				return t
+			}
+			return mkBV(t.ival, ew)
+		}
+		if ew == 0 {
+			// Int-sorted constants: element width unknown here; use 64-bit and let callers convert
+			for _, e := range elems {
+				if e.(*Term).ival.BitLen() > 8 {
+					ew = 64
+				}
+			}
+			if ew == 0 {
+				ew = 8
+			}
+			conv = func(t *Term) *Term { return mkBV(t.ival, ew) }
+		}
+		res := conv(elems[len(elems)-1].(*Term))
+		for i := len(elems) - 2; i >= 0; i-- {
+			res = tIte(tEq(idx, mkBV(bigInt(int64(i)), idx.w)), conv(elems[i].(*Term)), res)
+		}
+		return res, true
 	}
 	ii := bvToInt(idx, signed)
 	inRange := tAnd(iGe(ii, mkInt64(0)), iLt(ii, mkInt64(int64(len(elems)))))
@@ -1260,4 +1316,26 @@ func (p *Path) isHarnessFunc(fn *ssa.Function) bool {
 		}
 	}
 	return false
+}
+
+
+func constTable(es []Value) bool {
+	if len(es) == 0 {
+		return false
+	}
+	for _, e := range es {
+		if t, ok := e.(*Term); !ok || !t.cst {
+			return false
+		}
+	}
+	return true
+}
+
+func (p *Path) symLoad(ptr PtrV) Value {
+	arr := getPath(ptr.c.v, ptr.path).(ArrayV)
+	r, ok := p.iteSelect(arr.e, ptr.sym.idx, ptr.sym.signed)
+	if !ok {
+		p.unsup("symbolic index into a table that is no longer constant")
+	}
+	return r
 }
